@@ -474,14 +474,18 @@ def dead_guards(repo: Repo, R, rule: str, flags):
                                 continue
                             writers.append((fi, n, v))
         # restrict to writers on the right receiver kind
-        rel_writers = [w for w in writers if _receiver_kind(w[0], w[1], flag) in (cls, None)]
+        rel_writers = [w for w in writers if _receiver_kind(w[0], w[1], flag) == cls]
         R.check(bool(rel_writers), rule, f"{rel}::{cls}.{flag}", rel,
                 f"`{cls}.{flag}` is tested by a rejecting guard and is set by {[w[0].qual for w in rel_writers]}" if rel_writers else f"`{cls}.{flag}` is tested by a rejecting guard but nothing ever sets it to a rejecting value: the guard is dead",
                 why="the freeze / elaboration-state guard can never reject")
 
 
 def _receiver_kind(fi: FuncInfo, node, flag) -> Optional[str]:
+    """Class of the object whose `flag` attribute the assignment writes, from the
+    receiver's annotation or its conventional name; None when unknown."""
     tgts = node.targets if isinstance(node, ast.Assign) else [node.target]
+    names = {"module": "Module", "m": "Module", "inst": "_Instance", "instance": "_Instance", "arr": "_Instance", "array": "_Instance",
+             "bundle": "Bundle", "bundle_def": "Bundle", "b": "Bundle"}
     for t in tgts:
         if isinstance(t, ast.Attribute) and t.attr == flag and isinstance(t.value, ast.Name):
             nm = t.value.id
@@ -493,10 +497,6 @@ def _receiver_kind(fi: FuncInfo, node, flag) -> Optional[str]:
                     for k in ("BundleInstance", "Module", "Bundle", "_Instance", "Instance"):
                         if k in ann:
                             return k
-            if nm in ("module", "m"):
-                return "Module"
-            if nm in ("inst", "instance"):
-                return "_Instance"
-            if nm in ("bundle",):
-                return "Bundle"
+            if nm in names:
+                return names[nm]
     return None
